@@ -15,6 +15,8 @@ structure Family where
   monInit : List (String × String) → μ
   /-- One `obs` line (tokens) fed to the monitor. -/
   monStep : μ → List String → μ
+  /-- One `op` line (tokens) fed to the monitor (most monitors ignore ops). -/
+  monOp : μ → List String → μ := fun m _ => m
   /-- `none` = accepted; `some why` = rejected. -/
   monVerdict : μ → Option String
 
